@@ -50,6 +50,15 @@ def rcase(rng, s):
 
 
 def rval(rng):
+    # now and then a value around / beyond the 3584-byte threshold of the writer's buffer (BufOstream::write)
+    if rng.random() < 0.004:
+        n = rng.choice([3583, 3584, 3585, 4000, 4096, 9000])
+        k = rng.randrange(3)
+        if k == 0:
+            return 'L' + 'q' * (n - 1)
+        if k == 1:
+            return "'" + 'a b' * ((n - 2) // 3) + 'z' * ((n - 2) % 3) + "'"
+        return 'M' + 'xy' * ((n - 1) // 2)
     return rng.choice(VALUES)
 
 
